@@ -208,6 +208,16 @@ def catalogue():
     # the replica changes in the middle of a poll: level-0 files listed, then compacted away and pruned
     cs.append({"label": "catalogue:midpoll", "sched": [o, W(1), S, V, W(2), S, W(3), S, W(4), S, V, ["Compact", 1], ["L0Retention", 9], W(5), S, ["Snapshot"], V],
                "follow": [{"plan": [[0, 1, 0], [1, 1, 2], [2, 0, 0]], "end": "stop"}]})
+    # partial bridge: a stopped follower whose position is only reachable through the newest snapshot, which ends BEFORE the first
+    # surviving level-0 file; the rest of the gap is in a level-1 file straddling that snapshot.  fillFollowGap returns after one
+    # level made progress, so the poll must re-check contiguity before applying the level-0 file (seeded change C16b).
+    for a, b in ((2, 2), (1, 3), (3, 1)):
+        pre = [o, W(1), S, W(2), S, ["Snapshot"], ["Compact", 1], V]
+        mid = [W(3), S, W(4), S, ["Compact", 1], W(5), S, ["Snapshot"], W(6), S, ["Compact", 1], W(1), S, ["Snapshot"]]
+        gap = sum([[W(2 + k), S] for k in range(a)], []) + [["Compact", 1]]
+        tail = sum([[W(4 + k), S] for k in range(b)], [])
+        cs.append({"label": "catalogue:partial-bridge", "sched": pre + mid + gap + tail + [["SnapRetention", 2], ["L0Retention", 9], V],
+                   "follow": [{"plan": [[0, 1, 0]], "end": "stop"}, {"plan": [[1, 0, 0]], "end": "stop"}]})
     for c in cs:
         c["kill"] = None
     return cs
@@ -256,6 +266,41 @@ def random_case(rnd, label):
             break
         follow.append({"plan": plan, "end": rnd.choice(["stop", "kill"])})
     return {"label": label, "sched": sched, "follow": follow, "kill": None, "levels": levels}
+
+
+def laggard_case(rnd, label):
+    """A follower that restores early, is stopped, and resumes after the primary has compacted, snapshotted and pruned behind it:
+    the gap must be bridged from higher levels, possibly in more than one step (a snapshot that ends before the first surviving
+    level-0 file + a level-1/2 file straddling it)."""
+    levels = 3 if rnd.random() < 0.2 else 2
+    o = ["LsOpen", "new"]
+    k = [0]
+
+    def w():
+        k[0] += 1
+        return [W(k[0]), S]
+    sched = [o] + sum([w() for _ in range(rnd.randint(1, 3))], [])
+    if rnd.random() < 0.8:
+        sched.append(["Snapshot"])
+    if rnd.random() < 0.6:
+        sched.append(["Compact", 1])
+    sched.append(V)
+    nsnap = 1
+    for _ in range(rnd.randint(3, 7)):          # the primary moves on
+        sched += sum([w() for _ in range(rnd.randint(1, 3))], [])
+        x = rnd.random()
+        if x < 0.45:
+            sched.append(["Compact", 1])
+            if levels == 3 or rnd.random() < 0.3:
+                sched.append(["Compact", 2])
+        elif x < 0.8:
+            sched.append(["Snapshot"]); nsnap += 1
+    sched.append(["Snapshot"]); nsnap += 1          # the newest snapshot ...
+    sched += sum([w() for _ in range(rnd.randint(1, 3))], []) + [["Compact", 1]]       # ... straddled by a level-1 file ...
+    sched += sum([w() for _ in range(rnd.randint(0, 3))], [])                          # ... followed by level-0 files
+    sched += [["SnapRetention", rnd.randint(max(0, nsnap - 2), nsnap - 1)], ["L0Retention", 9], V]
+    first = {"plan": [[0, rnd.randint(1, 2), 0]], "end": rnd.choice(["stop", "stop", "kill"])}
+    return {"label": label, "sched": sched, "follow": [first, {"plan": [[1, 0, 0]], "end": "stop"}], "kill": None, "levels": levels}
 
 
 def kill_case(rnd, label, friendly, resumed, every, off):
@@ -464,6 +509,8 @@ def main():
                     add(c, "sim")
             for k in range(nrand):
                 add(random_case(rnd, "random"), "random")
+            for k in range(max(6, nrand // 3)):
+                add(laggard_case(rnd, "laggard"), "random")
             for k in range(nkill):
                 add(kill_case(rnd, "kill", friendly=(k % 3 != 2), resumed=(k % 2 == 1), every=every, off=seed + k), "kill")
         # ---- R3
